@@ -258,7 +258,9 @@ def check_scenario(scn, rng, fuel=20000, n_random=4, with_model=False):
         stats["unknown_eval"] += unknown
         per_input_holders.append(None if (unknown or hold_out is None or any(k.startswith("stuck") for k, _ in hold_out)) else hold_out)
     model = None
-    if with_model:
+    if with_model and not flags["crashed"]:
+        # (an exception escaping SEVM.run aborts the whole test with an ERROR status: no path is
+        #  reported, so there is nothing to compare; the crash itself is C06's business)
         # inputs skipped above (reference unsupported / balances above MAX_ETH) have no holder entry
         model = model_leg(scn, kept_inputs, kept_refs, per_input_holders)
     return {"model": model, "n_paths": len(paths), "kinds": [p.kind for p in paths], "n_inputs": len(inputs), "c01": c01, "c02": c02,
